@@ -441,6 +441,7 @@ pub struct AnalysisPass<'a> {
     pub function_context: Option<u32>,
     pub contains_lambda_func: bool,
     pub vars_used: SmallVec<[InternedString; 24]>,
+    pub captures: ScopeMap<InternedString, ScopeInfo, FxBuildHasher>,
     // ghost
     pub log: Vec<Ev>,
     /// ghost: which of the next callee invocations clear the defining context (bit i = i-th call)
@@ -459,12 +460,13 @@ pub const REAL_FIELDS: &[&str] = &[
     "function_context: Option<u32>,",
     "contains_lambda_func: bool,",
     "vars_used: smallvec::SmallVec<[InternedString; 24]>,",
+    "captures: ScopeMap<InternedString, ScopeInfo, FxBuildHasher>,",
 ];
 
 impl<'a> AnalysisPass<'a> {
     pub fn ghost_new(info: &'a mut Analysis) -> Self {
         AnalysisPass { info, tail_call_eligible: false, escape_analysis: false, defining_context: None, defining_context_depth: 0, stack_offset: 0,
-                       function_context: None, contains_lambda_func: false, vars_used: SmallVec::new(), log: Vec::with_capacity(16), clears: 0, probe: [InternedString(u32::MAX), InternedString(u32::MAX)] }
+                       function_context: None, contains_lambda_func: false, vars_used: SmallVec::new(), captures: ScopeMap::with_layers(1), log: Vec::with_capacity(16), clears: 0, probe: [InternedString(u32::MAX), InternedString(u32::MAX)] }
     }
     /// CALLEE CONTRACT of the recursive visitor (see the header of this file)
     pub fn visit(&mut self, expr: &'a ExprKind) {
@@ -481,3 +483,18 @@ impl<'a> AnalysisPass<'a> {
         self.log.push(Ev::DefineWithoutBody { define: define as *const Define as usize, status });
     }
 }
+
+/// the set of names the prelude exports (ghost: every name with an id >= 1_000_000 is one)
+pub struct PreludeNames;
+pub struct PreludeNameSet;
+impl PreludeNameSet {
+    pub fn contains(&self, k: &InternedString) -> bool {
+        k.0 >= 1_000_000
+    }
+}
+impl PreludeNames {
+    pub fn with<R>(&self, f: impl FnOnce(&PreludeNameSet) -> R) -> R {
+        f(&PreludeNameSet)
+    }
+}
+pub static PRELUDE_INTERNED_STRINGS: PreludeNames = PreludeNames;
